@@ -12,7 +12,7 @@ CLAIMED = {
  "C03": ("GR1-GR8 ST7 TK1", "call-graph cycle / work-list detection, argument slicing, edge-dominance and per-iteration path enumeration over go/ssa",
          "dependency discovery has feedback (recursion or work list); AddEdge goes dependency -> dependent; every use of the Sort result is dominated by len(order)==graph.Order() with an erroring mismatch; undefined and duplicate names end in errors; every identifier dependency of the syntax tree reaches Task.TaskDependencies unconditionally; the whole request list is handed to one Run call; the run loop visits the unmodified order (no re-ordering through any alias) front to back with exactly one run/skip event and one result per iteration",
          "not covered: correctness of Kahn's algorithm inside collections/dag (its contract, incl. the silent truncation on cycles, is read from the module cache and trusted)"),
- "C04": ("HS1-HS5 HS8", "goroutine-topology recovery (alias propagation through closures/parameters), dominance of the sort over every consumer, origin tracing, path enumeration and interval evaluation over go/ssa",
+ "C04": ("HS1-HS5 HS8; supporting AB1 AB2", "goroutine-topology recovery (alias propagation through closures/parameters), dominance of the sort over every consumer, origin tracing, path enumeration and interval evaluation over go/ssa",
          "the only arrival-ordered slice reaching the digest is sorted with a whole-element comparator before use; each item is sha256 of the whole file opened on the job path plus that unchanged path; items are never folded arithmetically; one item per non-directory job; every element of the list becomes a job; at least one worker for a non-empty list",
          "not covered: injectivity of hash||path framing, SHA-256 collisions, duplicate paths (value-level)"),
  "C05": ("GL1-GL4 TK2 TK5 AB2; supporting HS7", "edge-dominance and path enumeration in the GlobWalk callback + interprocedural slicing of fsys/pattern/keys over go/ssa",
